@@ -38,11 +38,15 @@ TABLE = [
 ]
 
 
+CONFORMANCE = {"_ifs": [{"flatten_list": [0, 1, 2, 3]}, {"flatten_list": [0, 1, 0, 3]}, {"flatten_list": ["#N/A", 1]}, {"flatten_list": []}, {"flatten_list": ["", 1, {"$e": 1}, 2, "x", 3]}], "_find_error_in_list": [{"flatten_list": [1, "#NULL!", "#REF!"]}, {"flatten_list": [1, 2]}, {"flatten_list": [" #NULL!"]}]}
+
+
 def run(ctx):
     res = PropResult('C13')
     K.k1_block(res, ctx, MOD, K1, 'C13.')
     schema.run_table(res, 'C13', TABLE)
     K.canary_contract(res, MOD, '_ifs', 'first_true_pair', 'result == "#N/A"')
+    K.conformance(res, 'contracts.rt', CONFORMANCE)
     K.monitor_if_present(res, ctx, 'mon_c13')
     res.trusted_base += ['L-SUBST: replacing a placeholder in a delimited position by an expression text yields the '
                          'schema tree with that expression substituted (CPython grammar)',
